@@ -60,6 +60,48 @@ def random_programs(rng, nproc, nops):
     return progs
 
 
+def twin_programs(rng, nproc):
+    """Overlapping submissions that differ in ONE respect only: the same old size and checkpoint with a right and a wrong proof, the same old size
+    with the two sides of a fork, the same step twice. Each process first brings its own view to size 1, then all fire the contested step."""
+    good = lambda b, m, n: {"k": "right", "b": b, "m": m, "n": n}
+    upd = lambda old, b, n, pf: {"kind": "update", "log": "l1", "req": {"auth": "good", "old": old, "b": b, "n": n, "extra": 0, "stale": 0, "ext": 0, "pf": pf}}
+    n = rng.choice([2, 3])
+    shapes = [[upd(1, 0, n, good(0, 1, n)), upd(1, 0, n, {"k": "bad", "kind": rng.choice(["flip", "drop", "add", "short"])})],     # same checkpoint, right / wrong proof
+              [upd(1, 0, n, good(0, 1, n)), upd(1, 1, n, good(1, 1, n))],                                                          # the two sides of a fork
+              [upd(1, 0, n, good(0, 1, n)), upd(1, 0, n, {"k": "empty"})],
+              [upd(1, 0, 2, good(0, 1, 2)), upd(1, 0, 3, good(0, 1, 3))]]
+    sh = rng.choice(shapes)
+    progs = []
+    for p_ in range(nproc):
+        progs.append([{"kind": "read", "log": "l1"}] * rng.choice([0, 1]) + [sh[p_ % 2]] + [{"kind": "read", "log": "l1"}])
+    return progs
+
+
+def prod_conc_part(work, rep, tier, seed, prop, what):
+    """Overlapping requests through the production binary (concurrent HTTP/2 streams on the bastion connection it dials, reads over its read API):
+    random programs and 'twin' programs (overlapping submissions that differ in one respect only). Under overlap the answer to each request is
+    judged by Trace_Lin: it must be the answer of the atomic witness in SOME order compatible with real time."""
+    rng = random.Random(seed * 7919 + 13)
+    binp = build_prod_binary()
+    shapes = [("sqlfile", 20, 60, 4)] if tier == "quick" else [("sqlfile", 100, 400, 4), ("inmem", 60, 200, 4)]
+    n = 0
+    for store, nrand, ntwin, ng in shapes:
+        runs = [{"id": "pc%s-%d" % (prop, j), "mode": "free", "db0": db0_of("none"), "prog": random_programs(rng, ng, 6), "sched": []} for j in range(nrand)]
+        runs += [{"id": "twin%s-%d" % (prop, j), "mode": "free", "db0": db0_of("s1"), "prog": twin_programs(rng, ng), "sched": []} for j in range(ntwin)]
+        rp, tp = work.path("pc-%s-%s.jsonl" % (prop, store)), work.path("pc-%s-%s.ndjson" % (prop, store))
+        write_runs(rp, OPS_PARAMS, runs)
+        o, dt = run_driver(["prod-conc", "-bin", binp, "-in", rp, "-out", tp, "-store", store, "-seed", str(seed), "-dir", work.sub("db")])
+        rep.notes.append("overlapping requests/" + o.strip())
+        for r in judge_in_chunks(work, rep, tp, ng, "pc-%s-%s" % (prop, store)):
+            evs = [e for e in read_ndjson(tp) if e.get("run") == r["run"]]
+            rep.violation("%s: run %s of overlapping requests against the production binary (%s): the answers are not those of the atomic witness in any order compatible "
+                          "with real time; the judge cannot get past event %d" % (what, r["run"], store, r["i"]), {"property": prop, "store": store, "run": r["run"], "events": evs})
+        n += len(runs)
+        rep.cov["evaluations"] += sum(1 for e in read_ndjson(tp) if e.get("e") == "ret")
+    rep.cov["overlapping_request_runs_against_the_production_binary"] = n
+    rep.cov["traces_validated_against_impl"] += n
+
+
 def c05(work, tier, seed, replay):
     rep = Report("C05", tier, seed, "model_checking")
     rng = random.Random(seed)
@@ -178,6 +220,12 @@ def c05(work, tier, seed, replay):
             raise Inconclusive("the SqlN design variant does not behave as documented on %s: safety ok=%s violated=%s; error clause violated=%s" % (scen, safe.ok, safe.violated, err.violated))
         sq.append({"scenario": scen, "states": safe.distinct, "safety_properties_hold": True, "ErrOnlyOnConflict": "refuted by TLC (expected)"})
     rep.cov["design_variant_SqlN_pool_of_connections"] = sq
+    # ---- "never accepted on the strength of a state that was no longer current": the store reports trouble during one call (TLC-listed placements
+    # at the SQL-driver level: the query, the row fetch, the insert, the commit) and works again right after, as when another process held the
+    # database lock for a moment. Trace_Witness: the answer is the atomic witness' answer on the state that was current, or a storage error without effect.
+    import seqfam
+    fev, _ = fault_pipeline(work, rep, "quick", seed, "C05", groups={"driver", "fetch"})
+    rep.cov["updates_during_which_the_store_reported_trouble"] = sum(1 for e in fev if e.get("e") == "update" and e.get("fired"))
     for store, r, tp in rejected:
         evs = [e for e in read_ndjson(tp) if e.get("run") == r["run"]]
         rep.violation("history of run %s on %s is not linearizable w.r.t. the atomic witness (with the storage-error exception); the judge cannot get past event %d"
@@ -236,6 +284,7 @@ TAIL = [{"op": "update", "log": "l1", "req": {"auth": "good", "old": 0, "b": 1, 
         {"op": "probe", "log": "l1", "n": 2}, {"op": "probe", "log": "l1", "n": 3}, {"op": "get", "log": "l1"}, {"op": "probe", "log": "l1", "n": 3}]
 
 
+SQLITE_CODES = list(range(1, 27))
 DRIVER_FETCH = dict(DRIVER, GetLatestFail="next", ReadGetFail="next")     # the row fetch fails instead of the query
 
 
@@ -265,14 +314,14 @@ def fault_steps(prog, sched, level):
     return steps, sum(len(f) for f in faults)
 
 
-def fault_pipeline(work, rep, tier, seed, prop):
+def fault_pipeline(work, rep, tier, seed, prop, groups=None):
     """TLC-listed fault placements over the update histories, executed at interface and driver level, judged for `prop`"""
     import seqfam
     build_driver()
     progs = scenario_programs(work)
     maxf = 1 if tier == "quick" else 2
     plans = []   # (store kind for the driver, level, runs)
-    runs_by = {("inmem", "iface"): [], ("sqlfault", "iface"): [], ("sqlfault", "driver"): [], ("sqlfault", "fetch"): [], ("inmem", "panic"): [], ("sqlfault", "panic"): []}
+    runs_by = {("inmem", "iface"): [], ("sqlfault", "iface"): [], ("sqlfault", "driver"): [], ("sqlfault", "fetch"): [], ("sqlfault", "coded"): [], ("inmem", "panic"): [], ("sqlfault", "panic"): []}
     nplace = 0
     for scen, db in HIST.items():
         for store, ds in (("InMem", False), ("Sql1", True)):
@@ -290,6 +339,12 @@ def fault_pipeline(work, rep, tier, seed, prop):
                     runs_by[("inmem" if store == "InMem" else "sqlfault", lv)].append(
                         {"id": "%s-%s-%d" % (scen, lv, j), "steps": pre + steps + TAIL})
                     nplace += 1 if nf else 0
+                    # WHICH error the library reports must not matter: the same placement once with every primary result code SQLite documents
+                    # (SQLITE_ERROR=1 .. SQLITE_NOTADB=26), as the typed error mattn/go-sqlite3 returns for it
+                    if lv in ("driver", "fetch") and nf == 1:
+                        for code in SQLITE_CODES:
+                            cs = [dict(st_, dfaults=[f + "#%d" % code for f in st_["dfaults"]]) if st_.get("dfaults") else st_ for st_ in steps]
+                            runs_by[("sqlfault", "coded")].append({"id": "%s-%s-%d-code%d" % (scen, lv, j, code), "steps": pre + cs + TAIL})
             rep.cov.setdefault("fault_behaviours", {})["%s/%s" % (scen, store)] = len(sch)
         # the caller goes away: the context of one update is cancelled while one of its storage calls is in progress (no storage failure at all).
         # The code may ignore the context or honour it; what it answers as a refusal must have had, and must keep having, no effect.
@@ -330,6 +385,8 @@ def fault_pipeline(work, rep, tier, seed, prop):
     jc = seqfam.consts(Logs={"l1", "l2"}, MaxSize=3, NBranch=2, ForkAt=Sub("Fork_1"))
     all_events = []
     for (store, lv), runs in runs_by.items():
+        if groups is not None:
+            runs = [r_ for r_ in runs if (lv in groups and "-hold" not in r_["id"]) or ("hold" in groups and "-hold" in r_["id"])]
         if not runs:
             continue
         rp, tp = work.path("f-%s-%s.jsonl" % (store, lv)), work.path("f-%s-%s.ndjson" % (store, lv))
